@@ -307,11 +307,20 @@ fn h2_box(prop: &str, thorough: bool) -> Vec<(Body, usize)> {
     // so that the per-record output vector is recycled shorter than the new set
     let fa_grow: (Fmt, &[u8], usize, usize) = (Fmt::Fasta, b">a\nACGTAC\n>b\nACGTAC\n>c\nT\n>d\nA\n", 12, 3);
     let fq_grow: (Fmt, &[u8], usize, usize) = (Fmt::Fastq, b"@a\nACGTAC\n+\nIIIIII\n@b\nACGTAC\n+\nIIIIII\n@c\nT\n+\nI\n@d\nA\n+\nI\n", 22, 3);
-    let inputs = [fa2, fa3, fa3b, fq2, fq3, fa_grow, fq_grow];
+    // five sets of sizes 2,1,1,1,2: with queue 1 one data set carries 2, then 1, then 2 records, so an
+    // output vector that is cut down instead of kept would have to re-create slots (C16)
+    let fa_updown: (Fmt, &[u8], usize, usize) = (Fmt::Fasta, b">a\nA\n>b\nC\n>c\nACGTAC\n>d\nACGTAC\n>e\nACGTAC\n>f\nA\n>g\nC\n", 12, 5);
+    let inputs = [fa2, fa3, fa3b, fq2, fq3, fa_grow, fq_grow, fa_updown];
     for &(format, input, cap, nsets) in &inputs {
         for &t in &[1u32, 2] {
             for &q in if thorough { &[1usize, 2, 3][..] } else { &[1usize, 2][..] } {
-                let bound = bound_for(t, q, nsets, thorough).min(if t == 1 { 2 } else { 1 });
+                let mut bound = bound_for(t, q, nsets, thorough).min(if t == 1 { 2 } else { 1 });
+                if nsets >= 5 {
+                    if !(prop == "C16" || prop == "C07") || q > 2 {
+                        continue;
+                    }
+                    bound = if t == 1 { 1 } else { 0 };
+                }
                 let base = H2 { format, input: input.to_vec(), cap, threads: t, queue: q, stop_at: None, reader_init_fails: false, rec_init_fail_at: None, rset_init_fail_at: None, plain: false };
                 let mut push = |c: H2, b: usize| v.push((Body::H2(c), b));
                 match prop {
